@@ -241,6 +241,14 @@ theorem limit_groups_partition_concl :
     ((srcKinds src2).map (fun k => ((selectTerms k src2.terms).map (fun _ => (1 : ℚ))).sum)).sum ≠
       (src2.terms.map (fun _ => (1 : ℚ))).sum := by decide +kernel
 
+/-- scaling_one_source, applied: V1 alone (I1 killed) tripled -/
+theorem nv_scaling_one_source :
+    Solves .dc (0 : ℚ) [.V 1 0 0 18, .R 1 2 2, .I 2 0 0] (fun i => 3 * xV i) := by
+  have h := scaling_one_source .dc (0 : ℚ) 3 [] [.R 1 2 2, .I 2 0 3] (.V 1 0 0 6) xV
+    (by simpa [killAll, Cpt.mapSrc, cktV] using solves_V)
+  have e : (3 : ℚ) * 6 = 18 := by norm_num
+  simpa [killAll, Cpt.mapSrc, e] using h
+
 /-- groups_superpose, applied: group 1 takes V1 ↦ 6, group 2 takes I1 ↦ 3 (positions 0 and 2 of the netlist) -/
 def w1 : Nat → ℚ := fun p => if p = 0 then 6 else 0
 def w2 : Nat → ℚ := fun p => if p = 2 then 3 else 0
